@@ -252,6 +252,11 @@ def run(ctx):
             cfgs = CONFIGS
             enqs = list(ENQ)
         hs = [h for h, st in seq_histories(enqs, d_full, d_max)]
+        # reads beyond the end of the stream while the worker is still in its last moments (always part of the quick tier too)
+        for extra in (('close', 'next', 'next'), ('e1', 'close', 'next', 'next', 'next'), ('close', 'next', 'next', 'wait', 'next'),
+                      ('e1', 'poisonq', 'next', 'next', 'next')):
+            if extra not in hs:
+                hs.append(extra)
         for cfg in cfgs:
             for target in (('echo', 'echo_mut') if cfg['args'] else ('echo',)):
                 for h in hs:
